@@ -1,47 +1,418 @@
+// obs-paginate runs the REAL pagination code of the working tree — bunpaginate.UsingColumn / UsingOffset /
+// EncodeCursor / UnmarshalCursor / GetPageSize, the ledgerstore list methods (GetLogs, GetTransactions,
+// GetAccountsWithVolumes through ledgerstore.NewStoreForVerif) and the v1/v2 HTTP list handlers — over a small
+// table-serving database/sql driver, applies the C17 oracle (following `next` enumerates every item exactly once,
+// in order; `previous` shows the page before; every cursor handed out is accepted back and stands for the same
+// query, filter included) and writes every call as a Coq case for Paginate/Model.v.
 package main
 
 import (
-	"context"
-	"database/sql"
-	"database/sql/driver"
+	"encoding/base64"
+	"encoding/json"
 	"fmt"
+	"time"
 
-	"github.com/formancehq/ledger/verifx/fakesql/tabledrv"
-	"github.com/formancehq/stack/libs/go-libs/bun/bunpaginate"
-	"github.com/uptrace/bun"
-	"github.com/uptrace/bun/dialect/pgdialect"
+	"github.com/formancehq/ledger/verifx/vx"
 )
 
-type item struct {
-	bun.BaseModel `bun:"items,alias:items"`
-	ID            *bunpaginate.BigInt `bun:"id,type:numeric"`
+type input struct {
+	Kind string `json:"kind"` // col-walk | off-walk | col-query | codec | decode | pagesize | store | http-v1 | http-v2
+	// col-walk, off-walk, col-query: sort keys in table order
+	Rows   []int64 `json:"rows,omitempty"`
+	Size   uint64  `json:"size,omitempty"`
+	Order  string  `json:"order,omitempty"`
+	Filter *fexpr  `json:"filter,omitempty"`
+	Pit    *string `json:"pit,omitempty"`
+	// col-query, codec
+	Query *qdesc `json:"query,omitempty"`
+	// decode
+	Doc string `json:"doc,omitempty"`
+	// pagesize
+	Param   *string `json:"param,omitempty"`
+	Default uint64  `json:"default,omitempty"`
+	Max     uint64  `json:"max,omitempty"`
+	// store, http-*
+	Listing   string  `json:"listing,omitempty"` // logs | transactions | accounts
+	Table     []brow  `json:"table,omitempty"`
+	Own       string  `json:"own,omitempty"`
+	SizeParam *string `json:"sizeParam,omitempty"` // pageSize URL parameter (http)
 }
 
+func encodeRaw(doc string) string { return base64.RawURLEncoding.EncodeToString([]byte(doc)) }
+
+func one(r *vx.Run, in input) {
+	r.Count("kind:" + in.Kind)
+	switch in.Kind {
+	case "col-walk":
+		colWalk(r, in)
+	case "off-walk":
+		offWalk(r, in)
+	case "col-query":
+		colQueryOne(r, in)
+	case "codec":
+		codecOne(r, in)
+	case "decode":
+		decodeOne(r, in)
+	case "pagesize":
+		pageSizeOne(r, in)
+	case "store", "http-v1", "http-v2":
+		listingWalk(r, in)
+	}
+}
+
+// ---- generators ----------------------------------------------------------------------------------------
+
+func perm(g *vx.Rng, n int, lo int64) []int64 {
+	out := make([]int64, n)
+	for i := range out {
+		out[i] = lo + int64(i)
+	}
+	for i := n - 1; i > 0; i-- {
+		j := g.Intn(i + 1)
+		out[i], out[j] = out[j], out[i]
+	}
+	return out
+}
+
+// distinct keys, not contiguous, possibly negative
+func sparseKeys(g *vx.Rng, n int) []int64 {
+	seen := map[int64]bool{}
+	var out []int64
+	for len(out) < n {
+		k := int64(g.Intn(4*n+8)) - int64(n)
+		if !seen[k] {
+			seen[k] = true
+			out = append(out, k)
+		}
+	}
+	return out
+}
+
+var genKeys = []string{"reference", "account", "source", "destination", "metadata[tier]", "timestamp", "address", "balance[USD]", "date", "k\"q", "é"}
+
+func genValue(g *vx.Rng, depth int) any {
+	switch g.Intn(8) {
+	case 0:
+		return float64(g.Intn(2000) - 1000)
+	case 1:
+		return g.Bool()
+	case 2:
+		return nil
+	case 3:
+		if depth > 0 {
+			return []any{genValue(g, depth-1), "x"}
+		}
+		return "users:"
+	case 4:
+		return "a' or 1=1 --"
+	case 5:
+		return float64(int64(g.U64()%(1<<52))) * float64(1-2*g.Intn(2))
+	default:
+		return []string{"abc", "users:001", "", "world", "2023-01-01T00:00:00Z", "\\\"\n"}[g.Intn(6)]
+	}
+}
+
+func genFilter(g *vx.Rng, depth int) *fexpr {
+	if depth > 0 && g.Chance(2, 5) {
+		switch g.Intn(3) {
+		case 0, 1:
+			op := []string{"and", "or"}[g.Intn(2)]
+			n := g.Intn(4)
+			f := &fexpr{Op: op, Items: []*fexpr{}}
+			for i := 0; i < n; i++ {
+				f.Items = append(f.Items, genFilter(g, depth-1))
+			}
+			return f
+		default:
+			return &fexpr{Op: "not", Items: []*fexpr{genFilter(g, depth-1)}}
+		}
+	}
+	return &fexpr{Op: []string{"match", "lt", "lte", "gt", "gte"}[g.Intn(5)], Key: genKeys[g.Intn(len(genKeys))], Value: genValue(g, 1)}
+}
+
+func genPit(g *vx.Rng) *string {
+	if g.Chance(1, 3) {
+		return nil
+	}
+	s := time.Unix(1600000000+int64(g.Intn(100000000)), int64(g.Intn(1000000))*1000).UTC().Format(time.RFC3339Nano)
+	return &s
+}
+
+func optInt(g *vx.Rng, lo, n int) *int64 {
+	if g.Chance(1, 4) {
+		return nil
+	}
+	v := int64(lo + g.Intn(n))
+	return &v
+}
+
+func genQdesc(g *vx.Rng, offset bool) *qdesc {
+	q := &qdesc{Size: uint64(g.Intn(20)), Order: []string{"asc", "desc"}[g.Intn(2)], OptSize: uint64(g.Intn(120)), Pit: genPit(g), Vol: g.Bool(), EVol: g.Bool()}
+	if g.Chance(3, 4) {
+		q.Filter = genFilter(g, 3)
+	}
+	if offset {
+		o := uint64(g.Intn(50))
+		q.Offset = &o
+	} else {
+		q.Column = "id"
+		q.Bottom, q.Pid, q.Reverse = optInt(g, -5, 40), optInt(g, -5, 40), g.Bool()
+	}
+	return q
+}
+
+// store/http filters: the shapes the three listings accept, over the attributes the bucket rows carry
+// not: whether $not may be used (the store accepts it; the v2 request body only since cursors carry filters)
+func genListingFilter(g *vx.Rng, listing string, v1, not bool) *fexpr {
+	if g.Chance(1, 3) {
+		return nil
+	}
+	var leaf func() *fexpr
+	switch listing {
+	case "transactions":
+		leaf = func() *fexpr {
+			switch g.Intn(4) {
+			case 0:
+				return &fexpr{Op: "match", Key: "metadata[tier]", Value: "gold"}
+			default:
+				return &fexpr{Op: "match", Key: "reference", Value: fmt.Sprintf("r%d", g.Intn(3))}
+			}
+		}
+	case "accounts":
+		leaf = func() *fexpr {
+			switch g.Intn(3) {
+			case 0:
+				return &fexpr{Op: "match", Key: "metadata[attr]", Value: fmt.Sprint(g.Intn(3))}
+			case 1:
+				if v1 {
+					return &fexpr{Op: "not", Items: []*fexpr{{Op: "match", Key: "balance", Value: "5"}}}
+				}
+				return &fexpr{Op: "match", Key: "address", Value: accountAddr(int64(g.Intn(4)))}
+			default:
+				return &fexpr{Op: "match", Key: "address", Value: accountAddr(int64(g.Intn(4)))}
+			}
+		}
+	default:
+		leaf = func() *fexpr {
+			if g.Bool() {
+				return &fexpr{Op: "gte", Key: "date", Value: dateOf(g.Intn(3))}
+			}
+			return &fexpr{Op: "lt", Key: "date", Value: dateOf(1 + g.Intn(4))}
+		}
+	}
+	if v1 {
+		if g.Bool() {
+			return leaf()
+		}
+		a, b := leaf(), leaf()
+		for b.Key == a.Key && b.Op == a.Op || (a.Op == "not" && b.Op == "not") {
+			if listing == "transactions" && a.Key == "reference" {
+				b = &fexpr{Op: "match", Key: "metadata[tier]", Value: "gold"}
+			} else if listing == "transactions" {
+				b = &fexpr{Op: "match", Key: "reference", Value: "r1"}
+			} else if listing == "accounts" && a.Key != "address" {
+				b = &fexpr{Op: "match", Key: "address", Value: accountAddr(int64(g.Intn(4)))}
+			} else if listing == "accounts" {
+				b = &fexpr{Op: "match", Key: "metadata[attr]", Value: "1"}
+			} else if a.Op == "gte" {
+				b = &fexpr{Op: "lt", Key: "date", Value: dateOf(4)}
+			} else {
+				b = &fexpr{Op: "gte", Key: "date", Value: dateOf(0)}
+			}
+		}
+		return &fexpr{Op: "and", Items: []*fexpr{a, b}}
+	}
+	switch g.Intn(4) {
+	case 0:
+		return leaf()
+	case 1:
+		return &fexpr{Op: "and", Items: []*fexpr{leaf(), leaf()}}
+	case 2:
+		return &fexpr{Op: "or", Items: []*fexpr{leaf(), &fexpr{Op: "and", Items: []*fexpr{leaf()}}}}
+	default:
+		if listing == "logs" || !not {
+			return leaf()
+		}
+		return &fexpr{Op: "not", Items: []*fexpr{leaf()}}
+	}
+}
+
+func genBucket(g *vx.Rng, maxPer int) []brow {
+	names := []string{"l1", "l2", "l3"}[:2+g.Intn(2)]
+	var rows []brow
+	for _, n := range names {
+		k := g.Intn(maxPer + 1)
+		for i := 0; i < k; i++ {
+			rows = append(rows, brow{Ledger: n, ID: int64(i), Attr: g.Intn(3)})
+		}
+	}
+	for i := len(rows) - 1; i > 0; i-- {
+		j := g.Intn(i + 1)
+		rows[i], rows[j] = rows[j], rows[i]
+	}
+	return rows
+}
+
+func sp(s string) *string { return &s }
+
 func main() {
-	d := tabledrv.New()
-	d.Strict = true
-	t := &tabledrv.Table{Cols: []string{"id"}}
-	for _, k := range []int{3, 0, 6, 1, 5, 2, 4} {
-		t.Rows = append(t.Rows, []driver.Value{fmt.Sprint(k)})
-	}
-	d.Tables["items"] = t
-	db := bun.NewDB(sql.OpenDB(d.Connector()), pgdialect.New(), bun.WithDiscardUnknownColumns())
-	q := bunpaginate.ColumnPaginatedQuery[int]{PageSize: 3, Column: "id", Order: bunpaginate.OrderDesc}
-	for i := 0; i < 5; i++ {
-		c, err := bunpaginate.UsingColumn[int, item](context.Background(), db.NewSelect().Table("items"), q)
-		if err != nil {
-			panic(err)
-		}
-		fmt.Println(d.Last().SQL, len(c.Data), c.HasMore, c.Next, c.Previous)
-		for _, x := range c.Data {
-			fmt.Print(x.ID.ToMathBig(), " ")
-		}
-		fmt.Println()
-		if !c.HasMore {
-			break
-		}
-		if err := bunpaginate.UnmarshalCursor(c.Next, &q); err != nil {
-			panic(err)
+	r := vx.Start("C17", "paginate")
+	r.Cases("From FL Require Import Paginate.Model.\nLocal Open Scope string_scope.\n", "case", 300)
+	r.Sum.Rule = "walks (first page, next until hasMore=false, back along previous) of the real UsingColumn/UsingOffset over a table-serving driver, " +
+		"for key lists x page sizes x both orders x with/without a filter in the query; arbitrary single queries; cursor codec on random queries " +
+		"with random filter trees; GetPageSize; the real ledgerstore listings and the v1/v2 HTTP list handlers over a bucket shared by several ledgers; " +
+		"non-trivial = a walk step over more rows than the page size, a back step, a query with a filter, a listing page reached through a cursor; " +
+		"distinct by (suite, input, step)"
+	docs, replayOnly := r.Inputs()
+	for _, d := range docs {
+		var in input
+		if err := json.Unmarshal(d, &in); err == nil && in.Kind != "" {
+			one(r, in)
 		}
 	}
+	if replayOnly {
+		r.Finish()
+		return
+	}
+	g := vx.NewRng(r.Seed)
+	th := r.Thorough()
+	flt := &fexpr{Op: "and", Items: []*fexpr{{Op: "match", Key: "reference", Value: "abc"}, {Op: "not", Items: []*fexpr{{Op: "gte", Key: "timestamp", Value: "2023-01-01T00:00:00Z"}}}}}
+	pit := sp("2023-05-06T07:08:09.000123Z")
+
+	// 1. exhaustive small space: every collection size x page size x order, keys in a seeded permutation
+	maxN, maxSize := 12, 6
+	if th {
+		maxN, maxSize = 40, 14
+	}
+	for n := 0; n <= maxN; n++ {
+		sizes := []uint64{}
+		for s := 1; s <= maxSize && s <= n+2; s++ {
+			sizes = append(sizes, uint64(s))
+		}
+		if n > maxSize {
+			sizes = append(sizes, uint64(n-1), uint64(n), uint64(n+1))
+		}
+		for _, s := range sizes {
+			for _, o := range []string{"asc", "desc"} {
+				in := input{Kind: "col-walk", Rows: perm(g, n, int64(g.Intn(5))-2), Size: s, Order: o}
+				if (n+int(s))%3 == 0 {
+					in.Filter, in.Pit = flt, pit
+				}
+				one(r, in)
+				if o == "asc" {
+					in.Kind = "off-walk"
+					one(r, in)
+				}
+			}
+		}
+	}
+	// 2. the hypotheses: page size 0, duplicate keys (the calls go to the model; the walk oracle is off)
+	for n := 0; n <= 4; n++ {
+		for _, o := range []string{"asc", "desc"} {
+			one(r, input{Kind: "col-walk", Rows: perm(g, n, 0), Size: 0, Order: o})
+		}
+		one(r, input{Kind: "off-walk", Rows: perm(g, n, 0), Size: 0, Order: "asc"})
+	}
+	nd := 12
+	if th {
+		nd = 300
+	}
+	for k := 0; k < nd; k++ {
+		n := 2 + g.Intn(8)
+		rows := make([]int64, n)
+		for i := range rows {
+			rows[i] = int64(g.Intn(n/2 + 1))
+		}
+		one(r, input{Kind: "col-walk", Rows: rows, Size: uint64(1 + g.Intn(4)), Order: []string{"asc", "desc"}[g.Intn(2)]})
+	}
+	// 3. random walks over sparse keys, random filters
+	nw := 40
+	if th {
+		nw = 1500
+	}
+	for k := 0; k < nw; k++ {
+		n := g.Intn(30)
+		if th && g.Chance(1, 10) {
+			n = 100 + g.Intn(200)
+		}
+		in := input{Kind: "col-walk", Rows: sparseKeys(g, n), Size: uint64(1 + g.Intn(9)), Order: []string{"asc", "desc"}[g.Intn(2)], Pit: genPit(g)}
+		if g.Bool() {
+			in.Filter = genFilter(g, 2)
+		}
+		one(r, in)
+		if g.Chance(1, 3) {
+			in.Kind = "off-walk"
+			one(r, in)
+		}
+	}
+	// 4. arbitrary single queries
+	nq := 150
+	if th {
+		nq = 6000
+	}
+	for k := 0; k < nq; k++ {
+		q := genQdesc(g, false)
+		q.Size = uint64(g.Intn(6))
+		if g.Chance(2, 3) {
+			q.Filter = nil
+		}
+		one(r, input{Kind: "col-query", Rows: sparseKeys(g, g.Intn(12)), Query: q})
+	}
+	// 5. codec
+	nc := 200
+	if th {
+		nc = 8000
+	}
+	for k := 0; k < nc; k++ {
+		one(r, input{Kind: "codec", Query: genQdesc(g, g.Chance(1, 4))})
+	}
+	for _, qb := range foreignFilters {
+		one(r, input{Kind: "decode", Doc: `{"pageSize":3,"bottom":9,"column":"id","paginationID":4,"order":1,"filters":{"qb":` + qb + `,"pageSize":3,"options":{"pit":null,"volumes":false,"effectiveVolumes":true}},"reverse":false}`})
+	}
+	// 6. GetPageSize
+	for _, dm := range [][2]uint64{{15, 100}, {15, 1000}, {1, 1}, {7, 5}} {
+		one(r, input{Kind: "pagesize", Default: dm[0], Max: dm[1]})
+		for _, p := range []string{"", "0", "1", "5", "15", "99", "100", "101", "1000", "1001", "99999", "abc", "-1", "1.5", "4294967295", "4294967296", "00", "+3", " 3"} {
+			one(r, input{Kind: "pagesize", Default: dm[0], Max: dm[1], Param: sp(p)})
+		}
+	}
+	// 7. the listings of the real store, and through the HTTP handlers
+	nl := 30
+	if th {
+		nl = 700
+	}
+	for k := 0; k < nl; k++ {
+		for _, listing := range []string{"logs", "transactions", "accounts"} {
+			tbl := genBucket(g, 9)
+			own := []string{"l1", "l2"}[g.Intn(2)]
+			size := uint64(1 + g.Intn(5))
+			one(r, input{Kind: "store", Listing: listing, Table: tbl, Own: own, Size: size, Filter: genListingFilter(g, listing, false, true), Pit: genPit(g)})
+			szp := sp(fmt.Sprint(size))
+			switch g.Intn(6) {
+			case 0:
+				szp = sp("0")
+			case 1:
+				szp = nil
+			}
+			hp := genPit(g)
+			if hp == nil {
+				hp = pit
+			}
+			one(r, input{Kind: "http-v2", Listing: listing, Table: tbl, Own: own, SizeParam: szp, Filter: genListingFilter(g, listing, false, false), Pit: hp})
+			one(r, input{Kind: "http-v1", Listing: listing, Table: tbl, Own: own, SizeParam: szp, Filter: genListingFilter(g, listing, true, true), Pit: hp})
+		}
+	}
+	one(r, input{Kind: "http-v2", Listing: "transactions", Table: genBucket(g, 5), Own: "l1", SizeParam: sp("abc")})
+	r.Finish()
+}
+
+// filter members a foreign cursor may carry: accepted and refused shapes of query.ParseJSON
+var foreignFilters = []string{
+	`null`, `{}`, `[]`, `5`, `"x"`, `true`,
+	`{"$and":[]}`, `{"$or":[{"$match":{"a":1}}]}`, `{"$and":{"$match":{"a":1}}}`, `{"$and":[5]}`, `{"$and":[{"$match":{"a":1}},{}]}`,
+	`{"$match":{"a":1}}`, `{"$match":{"a":1,"b":2}}`, `{"$match":{}}`, `{"$match":5}`, `{"$match":[1]}`,
+	`{"$lt":{"a":{"x":[1,2]}}}`, `{"$lte":{"a":null}}`, `{"$gt":{"a":"s"}}`, `{"$gte":{"a":true}}`,
+	`{"$not":{"$match":{"a":1}}}`, `{"$not":5}`, `{"$not":[{"$match":{"a":1}}]}`, `{"$not":{"$nor":[]}}`,
+	`{"$nor":[]}`, `{"match":{"a":1}}`, `{"$match":{"a":1},"$lt":{"a":2}}`,
+	`{"$and":[{"$or":[{"$not":{"$and":[]}}]},{"$lt":{"k":-3}}]}`,
 }
